@@ -42,4 +42,13 @@ EncodeBy(layout, rec) == EncodeFrom(layout, rec, 1)
 Zeros(n) == [j \in 1..n |-> 0]
 RECURSIVE Concat(_)
 Concat(ss) == IF ss = <<>> THEN <<>> ELSE Head(ss) \o Concat(Tail(ss))
+
+(* The reader.  A decoder pulls its bytes through `Read`, which may deliver any non-empty piece of what was asked
+   for; Chunkings(b) is every way a reader can hand over the byte string b.  Every decode operator of this
+   specification is a function of the byte string alone, so a conforming decoder returns the same value under
+   every chunking (ChunkInvariance) -- the driver binds this by decoding half of all vectors through a reader that
+   delivers 1..7 bytes per call. *)
+RECURSIVE Chunkings(_)
+Chunkings(b) == IF b = <<>> THEN {<<>>} ELSE UNION {{<<SubSeq(b, 1, n)>> \o c : c \in Chunkings(SubSeq(b, n + 1, Len(b)))} : n \in 1..Len(b)}
+ChunkInvariance(b) == \A c \in Chunkings(b) : Concat(c) = b
 =============================================================================
